@@ -405,8 +405,8 @@ def random_cases(draw):
 
 
 def campaign_random(ctx):
-    ctx.search(random_cases(), random_oracle(ctx), ctx.budget(6000, 300000))
-campaign_random.shards = (2, 16)
+    ctx.search(random_cases(), random_oracle(ctx), ctx.budget(30000, 300000))
+campaign_random.shards = (8, 16)
 
 
 CAMPAIGNS = {"enum": campaign_enum, "random": campaign_random}
